@@ -2,6 +2,6 @@ SPECIFICATION TraceSpec
 CONSTANTS Nodes <- TNodes
           AddrOf <- TAddrOf
           AmRelay <- TAmRelay
-INVARIANTS OnlyRelaysForward RecordsOnLiveTunnels NotToSelf IndexesUnique
+INVARIANTS OnlyRelaysForward RecordsOnLiveTunnels NotToSelf IndexesUnique IndexesOwned
 POSTCONDITION TraceAccepted
 CHECK_DEADLOCK FALSE
